@@ -141,6 +141,7 @@ def validate(calls, ops, opts, model_exe, res, keys_known, check_every_layout=Tr
     snaps = {}            # idx -> seq (live)
     iters = {}            # id -> (view list, pos)
     opened = False
+    repaired = False
     gc_clean = True       # the last obsolete-file removal ran while no iterator pinned an old version
     try:
         m.ask('e_init %d' % (1 if rev else 0))
@@ -241,24 +242,43 @@ def validate(calls, ops, opts, model_exe, res, keys_known, check_every_layout=Tr
                                         actual=ik(es_[0]) + '/' + ik(es_[-1]))
 
             # ---- per call
-            if name in ('open', 'reopen'):
+            if name in ('open', 'reopen', 'repair'):
                 rkv = dict(t.split('=') for t in ret.split(' ')[1:])
                 if ret.split(' ')[0] != '0':
-                    res.problem('api-error', call['idx'], detail='open returned ' + ret); break
-                if not opened:
+                    res.problem('api-error', call['idx'], detail=name + ' returned ' + ret); break
+                edits = list(call['edits'])
+                rec_ed = None
+                if edits and not edits[0]['dels']:
+                    rec_ed = edits.pop(0)         # the edit written by ldb_open itself
+                if name == 'repair':
+                    res.stats['repair'] = res.stats.get('repair', 0) + 1
+                    repaired = True
+                    snaps.clear(); iters.clear(); gc_clean = True
+                    known = {int(x) for x in m.ask('e_nums').split(',') if x}
+                    numbered = [n for n in (call['dir'] or []) if n[:6].isdigit()]
+                    ondisk = {int(n.split('.')[0]) for n in numbered if n.endswith('.ldb') or n.endswith('.sst')}
+                    if known - ondisk:
+                        res.problem('dir-vs-live', call['idx'], detail='table lost by repair', ondisk=sorted(ondisk), live=sorted(known))
+                    new = sorted(ondisk - known)
+                    nf0 = max([int(n.split('.')[0]) for n in numbered] + [0]) + 1
+                    r = m.ask('e_repair %s %d' % (','.join(map(str, new)) or '.', nf0))
+                    if r != 'ok':
+                        res.problem('step-not-guarded', call['idx'], detail='repair ' + r, new_tables=new)
+                    m.ask('e_force_nf %d' % (rec_ed['vnext'] if rec_ed else int(rkv['vnext'])))
+                elif not opened:
                     opened = True
                 else:
                     res.stats['reopen'] += 1
                     snaps.clear(); iters.clear(); gc_clean = True
-                    # recovery: one edit, new level-0 tables from the replayed logs
+                    # recovery: new level-0 tables from the replayed logs
                     bounds = []; nums = []
-                    ed = call['edits'][-1] if call['edits'] else None
+                    ed = rec_ed
                     if ed:
                         for ad in ed['adds']:
                             nums.append(ad['num']); bounds.append(max_seq(ed['tables'][ad['num']]['entries']))
                             if ad['level'] != 0:
                                 res.problem('layout-mismatch', call['idx'], detail='recovery table not at level 0')
-                    nf = int(rkv['vnext'])
+                    nf = ed['vnext'] if ed else int(rkv['vnext'])
                     r = m.ask('e_reopen %s %s %d' % (','.join('%x' % b for b in bounds) or '.', ','.join(map(str, nums)) or '.', nf))
                     if r != 'ok':
                         res.problem('step-not-guarded', call['idx'], detail='reopen ' + r, edit=ed['raw'] if ed else '')
@@ -267,6 +287,10 @@ def validate(calls, ops, opts, model_exe, res, keys_known, check_every_layout=Tr
                             res.stats['files_cmp'] += 1
                             if m.ask('e_file %d' % ad['num']) != ed['tables'][ad['num']]['entries']:
                                 res.problem('step-output-differs', call['idx'], detail='recovery table %d' % ad['num'])
+                # compactions that ran inside ldb_open
+                for ed in edits:
+                    structural(ed)
+                m.ask('e_force_nf %d' % int(rkv['vnext']))
                 continue
             if ret == 'closed' or name == 'close':
                 continue
@@ -280,7 +304,8 @@ def validate(calls, ops, opts, model_exe, res, keys_known, check_every_layout=Tr
                 if name == 'has':
                     mg = mg.split(' ')[0]; sp = sp.split(' ')[0]
                 if cret != sp:
-                    res.problem('read-vs-spec', call['idx'], op=opline, implementation=cret, spec=sp, model_get=mg)
+                    res.problem('read-vs-spec-after-repair' if (repaired and cret == mg) else 'read-vs-spec',
+                                call['idx'], op=opline, implementation=cret, spec=sp, model_get=mg)
                 elif cret != mg:
                     res.problem('replica-divergence', call['idx'], op=opline, implementation=cret, model_get=mg)
             elif name in ('scan', 'rscan'):
